@@ -38,7 +38,7 @@ RULE = ("cases = schedules of <=25 ops over {enter query-mode / rule-mode / mode
         "op the mode queries, the expression context and behavioural probes are compared with a stack model. Non-trivial "
         "= an iterator is suspended across a block boundary (created or advanced on one side of a block entry/exit and "
         "advanced or finalised on the other) or an exception unwinds >= 2 frames; distinct = canonical JSON.")
-BUDGET = {"quick": (4, 300), "thorough": (16, 3000)}
+BUDGET = {"quick": (4, 300), "thorough": (16, 1200)}
 ASSUMPTIONS = ["single thread: the schedules are the interleavings of block entry/exit and iterator life-cycle, all owned "
                "by the harness", "the bitwise operators &, |, ~ outside a block are not in the guarded set and are not probed"]
 
